@@ -31,7 +31,7 @@ void h_compact_parse(void) {
     } else {
         __CPROVER_assert(g_illegal == 0, "C03 compact.parse: no callback for non-NULL arguments");
         __CPROVER_assert(ret == ok, "C03 compact.parse: accepts exactly r < n and s < n");
-        if (!ret) __CPROVER_assert(sig.data[k] == 0, "C03 compact.parse: overflow in r or s leaves the signature object ALL ZERO");
+        /* overflow: the header promises an initialized object that never verifies - unit C03.never_verifies.compact */
         if (ret) {
             secp256k1_ecdsa_signature_load(&ctx, &r, &s, &sig);
             __CPROVER_assert(spec_scalar_byte(&r, k % 32) == in64[k % 32] && spec_scalar_byte(&s, k % 32) == in64[32 + k % 32], "C03 compact.parse: the object holds r and s of the input");
@@ -80,7 +80,6 @@ void h_rec_compact(void) {
     } else {
         __CPROVER_assert(g_illegal == 0, "C03 compact.rec_parse: no callback for valid arguments");
         __CPROVER_assert(ret == ok, "C03 compact.rec_parse: accepts exactly r < n and s < n");
-        if (!ret) __CPROVER_assert(sig.data[k] == 0, "C03 compact.rec_parse: overflow in r or s leaves the recoverable signature object all zero");
         if (ret) {
             ret2 = secp256k1_ecdsa_recoverable_signature_serialize_compact(&ctx, out, &recid2, &sig);
             __CPROVER_assert(ret2 == 1 && recid2 == recid && out[k % 64] == rin64[k % 64] && g_illegal == 0, "C03 compact.rec_roundtrip: serialize_compact(parse_compact(b, recid)) = (b, recid)");
